@@ -435,7 +435,13 @@ def run(ctx: Ctx):
             corner = corners[i % len(corners)] if (not quick or i < 32) and i < len(corners) * (2 if quick else 20) else None
             cases.append(gen_case(crng, i, quick, corner))
         workers = 6 if quick else 8
-        check_cases(ctx, hb, cases, workers, dist)
+        # in rounds, so that a broken tree (where many cases end in the stall watchdog) is reported after the first failing round
+        per_round = 100 if quick else 500
+        for k in range(0, len(cases), per_round):
+            check_cases(ctx, hb, cases[k:k + per_round], workers, dist)
+            if ctx.violations:
+                ctx.notes.append("stopped after %d of %d cases: violations found" % (min(k + per_round, len(cases)), len(cases)))
+                break
     ctx.extra["input_distribution"] = dist
     ctx.extra["repo_tree_sha"] = ctx.repo_tree_sha(ANCHOR_FILES)
     ctx.extra["not_proved"] = [
